@@ -111,7 +111,7 @@ func (c *TLSClientConfig) loadRootCAs(tlsCfg *tls.Config) error {
 			return err
 		}
 		if !rootCAs.AppendCertsFromPEM(b) {
-			return fmt.Errorf("append certificate %q", name)
+			return fmt.Errorf("append certificate %q", redactFileOrBase64(name))
 		}
 	}
 
